@@ -10,6 +10,7 @@ Three case families, ``run_case`` dispatches on ``case["t"]`` (unknown tags give
 """
 from __future__ import annotations
 
+import asyncio
 import gc
 import math
 
@@ -104,7 +105,12 @@ STALE_TIMER_KIND = 'C18/timer-of-manually-removed-request-fires'
 
 _search_op = st.fixed_dictionaries({
     'op': st.just('search'), 'kind': st.sampled_from(SEARCH_KINDS),
-    'via': st.sampled_from(['api', 'api', 'cmd']), 'q': st.integers(0, 3)})
+    'via': st.sampled_from(['api', 'api', 'cmd']), 'q': st.integers(0, 3),
+    # removal of the request while its SearchRequestSentEvent is being delivered: by a plain listener, by an async
+    # listener after a pause, or by another task while a slow async listener is awaited
+    'hook': st.sampled_from([None, None, None, None, None, 'sync', 'async', 'task']),
+    'slow': st.sampled_from(['steps', 'steps', 'tick']), 'n': st.integers(1, 6),
+    'by': st.sampled_from(['ticket', 'request'])})
 _remove_op = st.fixed_dictionaries({
     'op': st.just('remove'), 'i': st.integers(0, 5), 'by': st.sampled_from(['ticket', 'request']),
     'pref': st.sampled_from(['any', 'due'])})
@@ -236,7 +242,10 @@ def _sanitise_search(case):
         name = o.get('op')
         if name == 'search':
             ops.append({'op': 'search', 'kind': o.get('kind') if o.get('kind') in SEARCH_KINDS else 'net',
-                        'via': 'cmd' if (cmds and o.get('via') == 'cmd') else 'api', 'q': _int(o.get('q'), 0, 3, 0)})
+                        'via': 'cmd' if (cmds and o.get('via') == 'cmd') else 'api', 'q': _int(o.get('q'), 0, 3, 0),
+                        'hook': o.get('hook') if o.get('hook') in ('sync', 'async', 'task') else None,
+                        'slow': 'tick' if o.get('slow') == 'tick' else 'steps', 'n': _int(o.get('n'), 1, 6, 1),
+                        'by': 'request' if o.get('by') == 'request' else 'ticket'})
         elif name == 'remove':
             ops.append({'op': 'remove', 'i': _int(o.get('i'), 0, 50, 0),
                         'by': 'request' if o.get('by') == 'request' else 'ticket',
@@ -370,6 +379,8 @@ def _run_search(case) -> CaseResult:
                 now = loop.time()
                 events.append((now, 'sent', event, next_seq()))
                 req = event.query
+                if req.search_type != SearchType.WISHLIST and hook['op'] is not None:
+                    hook['req'] = req
                 if req.search_type == SearchType.WISHLIST and id(req) not in by_obj:
                     if cfg['wl_timeout'] >= 0:
                         timeout = cfg['wl_timeout'] or None
@@ -378,14 +389,62 @@ def _run_search(case) -> CaseResult:
                         timeout = known[-1] if known else None
                     add_req('wish', req, now, timeout, now)
 
+            def on_sent_plain(self, event):
+                if hook['op'] is not None and hook['op']['hook'] == 'sync' \
+                        and event.query.search_type != SearchType.WISHLIST:
+                    hook_remove(event.query)
+
+            async def on_sent_slow(self, event):
+                op = hook['op']
+                if op is None or op['hook'] not in ('async', 'task') or event.query.search_type == SearchType.WISHLIST:
+                    return
+                hook['req'] = event.query
+                if op['slow'] == 'tick':
+                    await _until(loop, hook['T'] + TICK)
+                else:
+                    await simloop.step(op['n'] + (3 if op['hook'] == 'task' else 0))
+                if op['hook'] == 'async':
+                    hook_remove(event.query)
+
             async def on_removed(self, event):
                 events.append((loop.time(), 'removed', event, next_seq()))
 
             async def on_result(self, event):
                 events.append((loop.time(), 'result', event, next_seq()))
 
+        hook = {'op': None, 'T': None, 'req': None, 'removed': None}
+
+        def hook_remove(req):
+            """remove_request from inside / during the delivery of SearchRequestSentEvent (errors are recorded here:
+            the event bus swallows exceptions of listeners)."""
+            op = hook['op']
+            try:
+                manager.remove_request(req.ticket if op['by'] == 'ticket' else req)
+            except Exception as exc:
+                violations.append((f'C18/unexpected-exception:{type(exc).__name__}@remove_request',
+                                   f'removing {req!r} while its SearchRequestSentEvent is delivered: {exc!r}',
+                                   req.ticket, loop.time()))
+                return
+            hook['removed'] = (loop.time(), next_seq())
+
+        async def concurrent_remover(op):
+            """Another task: waits until the sent event is being delivered to the slow listener, then removes."""
+            for _ in range(40):
+                if hook['req'] is not None:
+                    break
+                await simloop.step(1)
+            else:
+                return
+            if op['slow'] == 'tick':
+                await _until(loop, hook['T'] + TICK / 4)
+            else:
+                await simloop.step(min(op['n'], 2))
+            hook_remove(hook['req'])
+
         listener = Listener()   # the event bus keeps weak references only
         client.events.register(SearchRequestSentEvent, listener.on_sent)
+        client.events.register(SearchRequestSentEvent, listener.on_sent_plain)
+        client.events.register(SearchRequestSentEvent, listener.on_sent_slow)
         client.events.register(SearchRequestRemovedEvent, listener.on_removed)
         client.events.register(SearchResultEvent, listener.on_result)
 
@@ -461,6 +520,9 @@ def _run_search(case) -> CaseResult:
                 before = {id(o) for o in manager.requests.values()}
                 query = 'q%d' % op['q']
                 timeout = state['timeout'] or None
+                hook.update(op=op if op['hook'] else None, T=T, req=None, removed=None)
+                hook['op'] = hook['op'] or {'hook': None}     # always capture the request of the sent event
+                remover = asyncio.ensure_future(concurrent_remover(op)) if op['hook'] == 'task' else None
                 try:
                     if op['via'] == 'api':
                         if op['kind'] == 'net':
@@ -479,6 +541,8 @@ def _run_search(case) -> CaseResult:
                         # (a wishlist round may register its own requests while the command is awaited)
                         new = [o for o in manager.requests.values() if id(o) not in before and
                                id(o) not in by_obj and o.search_type != SearchType.WISHLIST]
+                        if hook['req'] is not None:
+                            new = [hook['req']]     # (may already have been removed again by a listener)
                         if len(new) != 1:
                             violations.append(('C18/command-search-not-registered',
                                                f'{len(new)} new entries in SearchManager.requests after {op}',
@@ -488,12 +552,28 @@ def _run_search(case) -> CaseResult:
                 except Exception as exc:
                     violations.append((f'C18/unexpected-exception:{type(exc).__name__}@search:{op["via"]}',
                                        f'{op} raised {exc!r}', None, T))
+                    obj = None
+                if remover is not None:
+                    await remover
+                removed, hook['op'] = hook['removed'], None
+                slept = bool(op['hook'] in ('async', 'task') and op['slow'] == 'tick' and hook['req'] is not None)
+                if slept:
+                    state['tick'] += 1      # the slow listener held the call for exactly one grid step
+                    await _until(loop, now_t())
+                if obj is None:
                     continue
-                if abs(loop.time() - T) > EPS:
+                if abs(loop.time() - now_t()) > EPS:
                     violations.append(('C18/search-call-took-virtual-time', f'{op}: {loop.time() - T}', None, T))
                 if obj.query != query:
                     violations.append(('C18/request-carries-wrong-query', f'{op}: {obj.query!r}', None, T))
-                add_req(op['via'], obj, T, timeout, T, before)
+                r = add_req(op['via'], obj, T, timeout, T, before)
+                if removed is not None:
+                    r.removed_at, r.removed_seq = removed
+                    r.remove_status = 'live'
+                    notes['hook'] = True
+                    if manager.requests.get(r.ticket) is r.obj:
+                        violations.append(('C18/requests-table:still-registered-after-remove', r.describe(),
+                                           r.ticket, r.removed_at))
             elif name == 'remove':
                 pop = [r for r in reqs if r.removed_at is None and r.status(T) in ('live', 'tie')]
                 if not pop:
@@ -796,6 +876,8 @@ def _run_search(case) -> CaseResult:
         res.label('near-deadline')
     if wish_arrivals:
         res.label('wishlist-rounds')
+    if notes.get('hook'):
+        res.label('remove-during-sent-event')
     if notes.get('race'):
         res.label('race:remove-k-iterations-after-reply')
     res.nontrivial = bool(notes['ties'] or notes['near'])
